@@ -567,3 +567,14 @@ Proof.
   - unfold undo_ok. cbn. unfold splice_ok, i31. cbn. repeat split; lia.
 Qed.
 End C04_translated_undo.
+
+(* the case the theorems above leave out, as a theorem: on the struct lbuf_make makes (hist == NULL, hist_sz == hist_n == hist_u == 0) the translated
+   lbuf_opt takes the growth branch, allocates 9 * HIST_INIT cells, and stops in memcpy(hist, lb->hist, 0) with lb->hist == NULL -- undefined by
+   C11 7.24.1p2, an error (EShape) of CLite.v's memcpy, harmless with every libc.  For every oracle. *)
+Theorem C04_tr_lbuf_opt_null_hist : forall ext (m : CLite.mem) bl (blk : CLite.block) (bufv : CLite.val) p nd d fuel,
+  nth_error m bl = Some blk -> length blk = TrLbufBase.LBUF_CELLS ->
+  nth_error blk TrLbufBase.L_hist = Some (CLite.VInt 0) -> nth_error blk TrLbufBase.L_hist_sz = Some (CLite.VInt 0) ->
+  nth_error blk TrLbufBase.L_hist_n = Some (CLite.VInt 0) -> nth_error blk TrLbufBase.L_hist_u = Some (CLite.VInt 0) -> 0 < fuel ->
+  CLiteExt.callx ext GenCFuncs.cprog fuel (S (S (S (S d)))) GenCFuncs.F_lbuf_opt [CLite.VPtr bl 0; bufv; CLite.VInt p; CLite.VInt nd] m = CLite.Err CLite.EShape.
+Proof. exact TrUndoEdit.tr_lbuf_opt_null_hist. Qed.
+Print Assumptions C04_tr_lbuf_opt_null_hist.
